@@ -118,6 +118,28 @@ def canon(e, boolctx=False):
     if isinstance(e, ast.UnaryOp) and isinstance(e.op, ast.Not):
         inner = canon(e.operand, True)
         return _neg(inner, boolctx)
+    if boolctx and isinstance(e, ast.Compare) and len(e.ops) == 1:
+        # len(X) > 0 / len(X) != 0 / 0 < len(X)  ==  X   (as a test);
+        # len(X) == 0 / 0 == len(X)              ==  not X
+        a, op, b = e.left, e.ops[0], e.comparators[0]
+
+        def is_len(x):
+            return isinstance(x, ast.Call) and isinstance(
+                x.func, ast.Name) and x.func.id == 'len' and \
+                len(x.args) == 1 and not x.keywords
+
+        def is_zero(x):
+            return isinstance(x, ast.Constant) and x.value == 0 and \
+                not isinstance(x.value, bool)
+        if is_len(b) and is_zero(a):
+            a, b = b, a
+            op = {ast.Lt: ast.Gt, ast.LtE: ast.GtE, ast.Gt: ast.Lt,
+                  ast.GtE: ast.LtE}.get(type(op), type(op))()
+        if is_len(a) and is_zero(b):
+            if isinstance(op, (ast.Gt, ast.NotEq)):
+                return canon(a.args[0], True)
+            if isinstance(op, (ast.Eq, ast.LtE)):
+                return _neg(canon(a.args[0], True), True)
     if isinstance(e, ast.Compare):
         operands = [canon(x, False) for x in [e.left] + list(e.comparators)]
         if len(e.ops) == 1:
